@@ -336,7 +336,7 @@ def run(ctx):
     replay_generic_known(ctx, 'C02')
     ctx.coverage.update(
         evaluations=len(atoms), distinct_nontrivial=len(st["distinct"]), traces_validated_against_impl=st["agreed"],
-        rule="one tree (files with sizes at unit boundaries m*n-1, m*n, m*n+1, owners without names, hard links, suid/sgid/odd permission bits, dot-files, names that spell keywords, links, a FIFO, directories) x atomic conditions over the always-available columns %s x every spelling of =, !=, ===, !==, >, >=, <, <= x literals drawn from the attribute values present, their neighbours v-1, v, v+1, unit spellings in any case, boolean words in any case, BETWEEN / NOT BETWEEN, column-vs-column; rows vs the comparison evaluated on lstat attributes (spec) and vs the regenerated typed comparison tables (model). non-trivial = a proper non-empty result" % (INT_COLS + STR_COLS + BOOL_COLS),
+        rule="one tree (files with sizes at unit boundaries m*n-1, m*n, m*n+1, owners without names, hard links, suid/sgid/odd permission bits, dot-files, names that spell keywords, names with a line break, newline-rich files longer than a read block, links, a FIFO, a socket and - where they can be created - device nodes, directories) x atomic conditions over the always-available columns %s x every spelling of =, !=, ===, !==, >, >=, <, <= x literals drawn from the attribute values present, their neighbours v-1, v, v+1, unit spellings in any case, boolean words in any case, BETWEEN / NOT BETWEEN, column-vs-column, LIKE / NOTLIKE and glob `=` / `!=` patterns derived from the attribute values (textbook matcher), every mode string of the tree; rows vs the comparison evaluated on lstat attributes (spec) and vs the regenerated typed comparison tables (model). non-trivial = a proper non-empty result" % (INT_COLS + STR_COLS + BOOL_COLS),
         samples=st["samples"], distribution=dict(st["hist"]))
     return ctx.finish(trusted=["attribute values come from os.lstat (their printing is C04's subject); pattern operators are C12's, date literals C13's"])
 
